@@ -27,7 +27,7 @@ cp "$SRC/patch.diff" "$SRC/demo.py" "$DST/"
 [ -f "$SRC/note.txt" ] && cp "$SRC/note.txt" "$DST/"
 results=""
 for C in $CHECKS; do
-  out=$(cd /verif && VERIF_EVIDENCE_DIR=/tmp/mut-evidence VERIF_REPLAY_DIR=/tmp/mut-replays VERIF_REPO="$WT" ./check "$C" --tier quick 2>&1); rc=$?
+  out=$(cd /verif && VERIF_EVIDENCE_DIR=/tmp/mut-evidence-$P VERIF_REPLAY_DIR=/tmp/mut-replays-$P VERIF_REPO="$WT" ./check "$C" --tier quick 2>&1); rc=$?
   sig=$(echo "$out" | grep -A1 "^VIOLATION" | grep signature | head -3 | tr '\n' ';')
   echo "  check $C rc=$rc $sig"
   sigj=$(echo "$out" | grep signature | head -4 | sed 's/^ *signature: //' | python3 -c "import sys,json; print(json.dumps([l.strip() for l in sys.stdin]))")
